@@ -39,7 +39,11 @@ def confirm(wt, prop):
         ok = rc0 == 0 and rc1 != 0 and '133 passed' in ot
         print(prop, m, 'clean demo rc', rc0, '| patched demo rc', rc1, '| suite:', ot.strip(), '| CONFIRMED' if ok else '| REJECTED')
         if ok:
-            dst = os.path.join(VERIF, 'seeded', f'{prop}-{m}')
+            # never overwrite an earlier change: take the next free number of this property (retired ones count)
+            import re
+            used = [int(x.group(1)) for base in (os.path.join(VERIF, 'seeded'), os.path.join(VERIF, 'seeded', 'retired')) if os.path.isdir(base)
+                    for d2 in os.listdir(base) for x in [re.fullmatch(prop + r'-m(\d+)', d2)] if x]
+            dst = os.path.join(VERIF, 'seeded', f'{prop}-m{max(used + [0]) + 1}')
             os.makedirs(dst, exist_ok=True)
             shutil.copy(patch, dst)
             shutil.copy(os.path.join(d, 'demo.py'), dst)
@@ -82,6 +86,7 @@ def detect(sd, props=None):
         sh('git checkout -- .', cwd='/repo')
         for ev, content in saved.items():
             open(ev, 'w').write(content)
+        sh('./check --setup', cwd=VERIF, timeout=3000)      # regenerate coq/Generated from the unchanged tree
     meta.setdefault('detection', {}).update(res)
     json.dump(meta, open(os.path.join(sd, 'meta.json'), 'w'), indent=1)
 
